@@ -245,8 +245,8 @@ namespace cds { namespace intrusive {
                             nodeSize = arrayNodeSize;
                         }
                         else if ( slot.bits() == base_class::flag_array_converting ) {
-                            // the slot is converting to array node right now - skip the node
-                            ++idx;
+                            // the slot is converting to array node right now: look at it again until the conversion is done,
+                            // skipping it would skip the item that is being moved to the new array node
                         }
                         else {
                             if ( slot.ptr()) {
@@ -256,8 +256,10 @@ namespace cds { namespace intrusive {
                                     m_idx = idx;
                                     return;
                                 }
+                                // the slot has been changed (the item is removed/replaced or the slot is converting): look at it again
                             }
-                            ++idx;
+                            else
+                                ++idx;
                         }
                     }
                     else {
@@ -303,8 +305,8 @@ namespace cds { namespace intrusive {
                             idx = nodeSize - 1;
                         }
                         else if ( slot.bits() == base_class::flag_array_converting ) {
-                            // the slot is converting to array node right now - skip the node
-                            --idx;
+                            // the slot is converting to array node right now: look at it again until the conversion is done,
+                            // skipping it would skip the item that is being moved to the new array node
                         }
                         else {
                             if ( slot.ptr()) {
@@ -314,8 +316,10 @@ namespace cds { namespace intrusive {
                                     m_idx = idx;
                                     return;
                                 }
+                                // the slot has been changed (the item is removed/replaced or the slot is converting): look at it again
                             }
-                            --idx;
+                            else
+                                --idx;
                         }
                     }
                     else {
